@@ -622,6 +622,7 @@ func guardS[T any](r *R, n int, s stream.Stream[T]) stream.Stream[T] {
 func (g *sGuard[T]) Next(ctx context.Context) (v T, err error) {
 	defer func() {
 		if p := recover(); p != nil {
+			passThrough(p)
 			if p == sim.Killed {
 				panic(p)
 			}
@@ -649,6 +650,7 @@ func guardI[T any](r *R, n int, it iterator.Iterator[T]) iterator.Iterator[T] {
 func (g *iGuard[T]) Next() (v T, ok bool) {
 	defer func() {
 		if p := recover(); p != nil {
+			passThrough(p)
 			if p == sim.Killed {
 				panic(p)
 			}
@@ -665,6 +667,7 @@ func (g *iGuard[T]) Next() (v T, ok bool) {
 func sameElems(what string, n int, same func(i int) bool) (msg string) {
 	defer func() {
 		if p := recover(); p != nil {
+			passThrough(p)
 			msg = "" // elements of a type that cannot be compared: no verdict
 		}
 	}()
